@@ -1,10 +1,10 @@
 #!/bin/sh
 # run_all.sh <tier> [seed] : run every claimed check, print one status line each
 tier=${1:-quick}; seed=${2:-1}
-cd /verif
+cd "$(dirname "$0")/.."
 for id in $(cat tools/ready.txt); do
   s=$(date +%s)
-  VERIF_SEED=$seed python3 vcheck.py $id --tier $tier > /tmp/run_$id.out 2>&1; rc=$?
+  VERIF_SEED=$seed python3 vcheck.py $id --tier $tier > /tmp/run_${tier}_$id.out 2>&1; rc=$?
   e=$(date +%s)
-  echo "$id rc=$rc $((e-s))s $(grep -c '^VIOLATION' /tmp/run_$id.out) violations $(grep -c '^KNOWN-FINDING' /tmp/run_$id.out) known $(grep -c '^INCONCLUSIVE' /tmp/run_$id.out) inconclusive"
+  echo "$id rc=$rc $((e-s))s $(grep -c '^VIOLATION' /tmp/run_${tier}_$id.out) violations $(grep -c '^KNOWN-FINDING' /tmp/run_${tier}_$id.out) known $(grep -c '^INCONCLUSIVE' /tmp/run_${tier}_$id.out) inconclusive"
 done
